@@ -12,6 +12,7 @@ import (
 
 	"github.com/vedadiyan/genql"
 	"github.com/vedadiyan/genql/vrt"
+	"verif/harness/explore"
 )
 
 type Out struct {
@@ -332,4 +333,27 @@ func plain(v any, path string, seen map[uintptr]bool, depth int) string {
 		return ""
 	}
 	return fmt.Sprintf("%s: value of type %T", path, v)
+}
+
+// ---------------------------------------------------------------------------------------------
+// exploration
+
+// ExploreQuery runs New+Exec of one query under every choice trace within the deviation bound
+// (explorer-owned: thread schedule and/or map iteration order, per cfg).  mk builds a fresh
+// document for every execution (no state is shared between executions); check is the oracle for
+// one execution (returning false stops the exploration).
+func ExploreQuery(cfg vrt.Config, bound int, maxExecs int64, mk func() (map[string]any, string, []genql.QueryOption), check func(o *Out, prefix []int32) bool) *explore.Stats {
+	var cur *Out
+	e := &explore.Explorer{
+		MaxExecs: maxExecs,
+		Run: func(prefix []int32) *vrt.Result {
+			doc, sql, opts := mk()
+			genql.VerifResetSelectorCache()
+			cur = RunCfg(cfg, prefix, doc, sql, opts...)
+			return cur.Res
+		},
+		Check: func(prefix []int32, r *vrt.Result) bool { return check(cur, prefix) },
+	}
+	e.Explore(bound)
+	return &e.Stats
 }
